@@ -52,7 +52,7 @@ MIN_OBS = {
     'thorough': {'parser_calls': 2000000, 'streams': 29000, 'frames_sent': 500000, 'hostile_frames': 200000,
                  'good_frames_checked': 220000, 'reader_alive_checks': 29000, 'accept_cases': 1400,
                  'accept_bad_judged': 3000, 'accept_good_judged': 2400, 'semantic_cases': 3000,
-                 'collateral_checks': 55000},
+                 'collateral_checks': 48000},
 }
 SHARD_TIMEOUT = {'quick': 600, 'thorough': 5400}
 
@@ -117,6 +117,9 @@ WHAT_FAILS = {
     'stream:reader-dead-connection-open': 'the reader task of a connection ended while the connection stayed open',
     'stream:connection-closed-by-hostile-frame': 'an established connection was closed because of a rejected frame',
     'stream:reader-not-at-frame-boundary': 'after all frames were delivered the reader was inside a frame (desync)',
+    'stream:reader-did-not-end-at-close': 'after the remote end closed, the connection did not report CLOSING, CLOSED or '
+                                          'its reader task kept running',
+    'stream:reader-exception-at-close': 'the reader task ended with an exception when the remote end closed',
     'stream:other-connection-affected': 'a hostile stream on one connection broke another connection',
     'accept:bad-first-frame-not-closed': 'an accepted connection with an undecodable first frame stayed open',
     'accept:stalled-first-frame-not-closed': 'an accepted connection with an incomplete first frame outlived the read timeout',
@@ -134,6 +137,10 @@ ZLIB_CLASSES = ('zlib-corrupt', 'zlib-truncated', 'zlib-bad-checksum', 'zlib-gar
 PARSER_ONLY = ('prefix-lie', 'raw-short', 'raw-random')
 # message classes never used as template of a hostile frame INSIDE A STREAM (see ASSUMPTIONS)
 STREAM_TEMPLATE_EXCLUDE = {'WishlistInterval.Response'}
+# additionally excluded (in 4 of 5 streams) for classes that may stay decodable: a decoded PeerSearchReply makes the
+# client close the connection on purpose, which ends the judged part of the stream
+STREAM_VALID_EXCLUDE = {'PeerSearchReply.Request'}
+MAY_STAY_VALID = ('valid-random-message', 'trailing-bytes', 'bit-flip', 'count-lie-short', 'zlib-bomb', 'zlib-wrong-payload')
 
 
 # --------------------------------------------------------------------------------------------------
@@ -280,8 +287,10 @@ class Forge:
         p[off:off + 4] = new.to_bytes(4, 'little')
         return bytes(p)
 
-    def _hostile_body(self, rng: random.Random, fam: str, cls: str, cap: int, exclude=()) -> Optional[bytes]:
+    def _hostile_body(self, rng: random.Random, fam: str, cls: str, cap: int, exclude=(), exclude_valid=()) -> Optional[bytes]:
         w = self.width[fam]
+        if cls in MAY_STAY_VALID and exclude_valid:
+            exclude = set(exclude) | set(exclude_valid)
         if cls == 'random-body':
             return rng.randbytes(rng.choice((4, 5, 8, 12, 16, 40, 100, 200)))
         if cls == 'known-code-random-payload':
@@ -356,10 +365,10 @@ class Forge:
             raise ValueError(cls)
         return t['code'] + bytes(z)
 
-    def hostile(self, rng: random.Random, fam: str, cls: str, cap: int = STREAM_CAP, exclude=()) -> bytes:
+    def hostile(self, rng: random.Random, fam: str, cls: str, cap: int = STREAM_CAP, exclude=(), exclude_valid=()) -> bytes:
         """A hostile frame of class ``cls`` with a CONSISTENT length prefix, free of good ids."""
         for _ in range(60):
-            body = self._hostile_body(rng, fam, cls, cap, exclude)
+            body = self._hostile_body(rng, fam, cls, cap, exclude, exclude_valid)
             if body is None or len(body) > min(MAX_BODY, cap + 4096) or self.tainted(body):
                 continue
             return frame_of(body)
@@ -619,6 +628,7 @@ def gen_stream_items(rng: random.Random, kind: str, seg: str) -> list[dict]:
         marks[rng.randrange(0, n - 1)] = 'b'
     items, gid = [], rng.randrange(0, 60000)
     which0 = rng.randrange(8)
+    ex_valid = STREAM_VALID_EXCLUDE if rng.random() < 0.8 else ()
     for m in marks:
         if m == 'g':
             gid = (gid + 1) % 65536
@@ -630,7 +640,8 @@ def gen_stream_items(rng: random.Random, kind: str, seg: str) -> list[dict]:
         else:
             cls = rng.choice(classes)
             cap = 160 if small else rng.choice((200, 200, 600, STREAM_CAP))
-            items.append({'b': cls, 'wire': fg.hostile(rng, fam, cls, cap, exclude=STREAM_TEMPLATE_EXCLUDE)})
+            items.append({'b': cls, 'wire': fg.hostile(rng, fam, cls, cap, exclude=STREAM_TEMPLATE_EXCLUDE,
+                                                       exclude_valid=ex_valid)})
     return items
 
 
@@ -902,3 +913,543 @@ def _run_stream_world(res: dict, world_seed: str, kind: str, items: list, seg: s
         multiset = ','.join(f'{c}x{classes.count(c)}' for c in sorted(set(classes)))
         res['csigs'].append(f'{layer}|{kind}|{multiset}|{_pattern(items)}|{seg_class(seg, wmode)}')
     return info
+
+
+def _stream_plan(seed: int, idx: int) -> tuple[str, str, str]:
+    rng = random.Random(f'{seed}:{ID}:stream-plan:{idx}')
+    kind = ('server', 'peer', 'peer-obf', 'dist', 'server', 'peer', 'peer-obf', 'dist-obf', 'server', 'peer')[(idx // 4) % 10]
+    if idx % 4 == 0:
+        seg, wmode = 'bytes1', rng.choice(WMODES)
+    elif idx % 4 == 1:
+        seg, wmode = 'whole', rng.choice(('split-header', 'split-header', 'one-write', 'per-frame'))
+    else:
+        seg, wmode = rng.choice(SEGS[2:] + ('random', 'random')), rng.choice(WMODES)
+    return kind, seg, wmode
+
+
+def _items_from_params(raw: list) -> list:
+    """Explicit stream (hand-written witness): [{'g': n, 'name': .., 'hex': ..} | {'b': class, 'hex': ..}]."""
+    out = []
+    for it in raw:
+        it = dict(it)
+        it['wire'] = bytes.fromhex(it.pop('hex'))
+        out.append(it)
+    return out
+
+
+def _run_stream(res: dict, params: dict):
+    if 'items' in params:
+        kind, seg, wmode = params['conn'], params.get('seg', 'whole'), params.get('wmode', 'per-frame')
+        items = _items_from_params(params['items'])
+    else:
+        kind, seg, wmode = _stream_plan(params['seed'], params['idx'])
+        items = gen_stream_items(random.Random(f"{params['seed']}:{ID}:stream:{params['idx']}"), kind, seg)
+    info = _run_stream_world(res, f"{ID}:stream:{params.get('seed', 0)}:{params.get('idx', 0)}", kind, items, seg, wmode, 'stream')
+    if info is None:
+        return
+    runner.add_obs(res, 'streams')
+    res['sample'] = {'kind': 'stream', 'params': {k: v for k, v in params.items() if k != 'items'}, 'connection': kind,
+                     'segmentation': seg, 'writes': wmode, 'stream': _brief(items)[:12], 'observed': info}
+
+
+# -- layer 3: well-formed frames that are hostile to the handlers --------------------------------------
+
+_STATS = {'avg_speed': 10, 'uploads': 1, 'shared_file_count': 2, 'shared_folder_count': 3}
+
+
+def semantic_menu() -> dict[str, dict[str, list]]:
+    """family -> label -> [(message name, field values)], every frame WELL-FORMED (reference codec)."""
+    S: dict[str, list] = {}
+    jr = {'room': 'evil-room', 'users': ['evil-a', 'evil-b', 'evil-c'], 'users_status': [1, 2, 2],
+          'users_stats': [_STATS] * 3, 'users_slots_free': [1, 1, 1], 'users_countries': ['DE', 'NL', 'US']}
+    S['JoinRoom-users-longer-than-status'] = [('JoinRoom.Response', dict(jr, users_status=[1]))]
+    S['JoinRoom-users-longer-than-stats'] = [('JoinRoom.Response', dict(jr, users_stats=[]))]
+    S['JoinRoom-users-longer-than-countries'] = [('JoinRoom.Response', dict(jr, users_countries=['DE'], users_slots_free=[]))]
+    S['JoinRoom-users-shorter'] = [('JoinRoom.Response', dict(jr, users=['evil-a']))]
+    S['JoinRoom-bad-status'] = [('JoinRoom.Response', dict(jr, users_status=[1, 99, 2]))]
+    S['JoinRoom-owner-without-operators'] = [('JoinRoom.Response', dict(jr, owner='evil-a'))]
+    S['JoinRoom-duplicate-users-twice'] = [('JoinRoom.Response', dict(jr, users=['evil-a'] * 3))] * 2
+    rl = {'rooms': ['evil-r1', 'evil-r2', 'evil-r3'], 'rooms_user_count': [1, 2, 3], 'rooms_private_owned': [],
+          'rooms_private_owned_user_count': [], 'rooms_private': [], 'rooms_private_user_count': [],
+          'rooms_private_operated': []}
+    S['RoomList-counts-short'] = [('RoomList.Response', dict(rl, rooms_user_count=[1]))]
+    S['RoomList-private-counts-short'] = [('RoomList.Response', dict(rl, rooms_private=['evil-p1', 'evil-p2'],
+                                                                     rooms_private_owned=['evil-o1']))]
+    S['RoomList-operated-unknown-twice'] = [('RoomList.Response', dict(rl, rooms_private_operated=['evil-zz']))] * 2
+    S['WishlistInterval-once'] = [('WishlistInterval.Response', {'interval': 600})]
+    S['WishlistInterval-repeated'] = [('WishlistInterval.Response', {'interval': 600}),
+                                      ('WishlistInterval.Response', {'interval': 700})]
+    S['ParentMinSpeed-ParentSpeedRatio-repeated'] = [('ParentMinSpeed.Response', {'speed': 1}), ('ParentSpeedRatio.Response', {'ratio': 50}),
+                                                     ('ParentMinSpeed.Response', {'speed': 0}), ('ParentSpeedRatio.Response', {'ratio': 0})]
+    S['GetUserStats-self-after-zero-ratio'] = [('ParentMinSpeed.Response', {'speed': 0}), ('ParentSpeedRatio.Response', {'ratio': 0}),
+                                               ('GetUserStats.Response', {'username': 'me', 'user_stats': dict(_STATS, avg_speed=5000)})]
+    S['config-burst-repeated'] = [(n, {f: v}) for v in (0, 0xFFFFFFFF) for n, f in (
+        ('SearchInactivityTimeout.Response', 'timeout'), ('MinParentsInCache.Response', 'amount'),
+        ('DistributedAliveInterval.Response', 'interval'), ('ParentInactivityTimeout.Response', 'timeout'),
+        ('DistributedDistributeInterval.Response', 'interval'))]
+    S['ExcludedSearchPhrases-repeated'] = [('ExcludedSearchPhrases.Response', {'phrases': ['evil', '']}),
+                                           ('ExcludedSearchPhrases.Response', {'phrases': []})]
+    S['PrivilegedUsers-repeated'] = [('PrivilegedUsers.Response', {'users': ['evil-a', 'evil-a', 'me']}),
+                                     ('PrivilegedUsers.Response', {'users': []})]
+    S['UserJoinedRoom-bad-status'] = [('UserJoinedRoom.Response', {'room': 'evil-room', 'username': 'evil-a', 'status': 99,
+                                                                  'user_stats': _STATS, 'slots_free': 1, 'country_code': 'DE'})]
+    S['GetUserStatus-bad-status'] = [('GetUserStatus.Response', {'username': 'evil-a', 'status': 77, 'privileged': True})]
+    S['AddUser-bad-status'] = [('AddUser.Response', {'username': 'evil-a', 'exists': True, 'status': 9, 'user_stats': _STATS,
+                                                     'country_code': 'DE'})]
+    S['AddUser-unsolicited-notexists'] = [('AddUser.Response', {'username': 'evil-nobody', 'exists': False})]
+    S['AddUser-self-offline'] = [('AddUser.Response', {'username': 'me', 'exists': True, 'status': 0, 'user_stats': _STATS})]
+    S['GetUserStatus-self-offline'] = [('GetUserStatus.Response', {'username': 'me', 'status': 0, 'privileged': False})]
+    for name in ('UserLeftRoom', 'RoomTickerRemoved', 'PrivateRoomGrantMembership', 'PrivateRoomRevokeMembership',
+                 'PrivateRoomGrantOperator', 'PrivateRoomRevokeOperator'):
+        S[f'{name}-unknown-room-and-user'] = [(f'{name}.Response', {'room': 'evil-unknown-room', 'username': 'evil-unknown'})]
+    for name in ('LeaveRoom', 'PrivateRoomMembershipGranted', 'PrivateRoomMembershipRevoked', 'PrivateRoomOperatorGranted',
+                 'PrivateRoomOperatorRevoked', 'CannotCreateRoom'):
+        S[f'{name}-unknown-room'] = [(f'{name}.Response', {'room': 'evil-unknown-room'})]
+    S['RoomTickers-unknown-room-duplicate-users'] = [('RoomTickers.Response', {'room': 'evil-unknown-room', 'tickers': [
+        {'username': 'evil-a', 'ticker': 'x'}, {'username': 'evil-a', 'ticker': 'y'}]})]
+    S['RoomTickerAdded-unknown-room'] = [('RoomTickerAdded.Response', {'room': 'evil-unknown-room', 'username': 'evil-a', 'ticker': ''})]
+    S['PrivateRoomMembers-Operators-unknown-room'] = [('PrivateRoomMembers.Response', {'room': 'evil-unknown-room', 'usernames': ['evil-a', 'evil-a']}),
+                                                      ('PrivateRoomOperators.Response', {'room': 'evil-unknown-room', 'usernames': ['evil-z']})]
+    S['RoomChatMessage-unknown-room'] = [('RoomChatMessage.Response', {'room': 'evil-unknown-room', 'username': 'evil-a', 'message': ''})]
+    S['PublicChatMessage-unsolicited'] = [('PublicChatMessage.Response', {'room': 'evil-unknown-room', 'username': 'evil-a', 'message': 'x'})]
+    S['PrivateChatMessage-unknown-user'] = [('PrivateChatMessage.Response', {'chat_id': 0xFFFFFFFF, 'timestamp': 0, 'username': 'evil-a',
+                                                                           'message': 'x', 'is_direct': True})] * 2
+    S['GetPeerAddress-unsolicited'] = [('GetPeerAddress.Response', {'username': 'evil-a', 'ip': '0.0.0.0', 'port': 0}),
+                                       ('GetPeerAddress.Response', {'username': 'evil-b', 'ip': '10.99.99.99', 'port': 9,
+                                                                    'obfuscated_port_amount': 1, 'obfuscated_port': 10})]
+    S['CannotConnect-unknown-ticket'] = [('CannotConnect.Response', {'ticket': 0xFFFFFFFF}), ('CannotConnect.Response', {'ticket': 0})]
+    ctp = {'username': 'evil-a', 'typ': 'P', 'ip': '10.99.99.99', 'port': 9, 'ticket': 4242, 'privileged': False,
+           'obfuscated_port_amount': 0, 'obfuscated_port': 0}
+    S['ConnectToPeer-dead-address'] = [('ConnectToPeer.Response', ctp)]
+    S['ConnectToPeer-zero-address'] = [('ConnectToPeer.Response', dict(ctp, ip='0.0.0.0', port=0))]
+    S['ConnectToPeer-unknown-type'] = [('ConnectToPeer.Response', dict(ctp, typ='X')), ('ConnectToPeer.Response', dict(ctp, typ=''))]
+    S['ConnectToPeer-file-type-dead-address'] = [('ConnectToPeer.Response', dict(ctp, typ='F'))]
+    S['ConnectToPeer-same-ticket-twice'] = [('ConnectToPeer.Response', dict(ctp, typ='D'))] * 2
+    S['ConnectToPeer-port-out-of-range'] = [('ConnectToPeer.Response', dict(ctp, port=0xFFFFFFFF, obfuscated_port_amount=1,
+                                                                           obfuscated_port=0xFFFFFFFF))]
+    S['Login-unsolicited-failure'] = [('Login.Response', {'success': False, 'reason': 'INVALIDPASS'})]
+    S['Login-unsolicited-success'] = [('Login.Response', {'success': True, 'greeting': 'again', 'ip': '6.6.6.6', 'md5hash': 'x',
+                                                          'privileged': True})]
+    S['CheckPrivileges-unsolicited'] = [('CheckPrivileges.Response', {'time_left': 0xFFFFFFFF})]
+    S['PotentialParents-dead-address'] = [('PotentialParents.Response', {'entries': [
+        {'username': 'evil-p', 'ip': '10.99.99.98', 'port': 9}, {'username': 'evil-p', 'ip': '0.0.0.0', 'port': 0}]})]
+    S['PotentialParents-repeated-empty'] = [('PotentialParents.Response', {'entries': []})] * 2
+    S['ResetDistributed-without-peers'] = [('ResetDistributed.Response', {})] * 2
+    S['Kicked'] = [('Kicked.Response', {})]
+    S['FileSearch-from-stranger'] = [('FileSearch.Response', {'username': 'evil-a', 'ticket': 1, 'query': ''}),
+                                     ('FileSearch.Response', {'username': 'me', 'ticket': 1, 'query': '*'})]
+    S['ServerSearchRequest-unknown-distributed-code'] = [('ServerSearchRequest.Response', {
+        'distributed_code': 99, 'unknown': 0, 'username': 'evil-a', 'ticket': 2, 'query': '- -'})]
+    S['ServerSearchRequest-from-stranger'] = [('ServerSearchRequest.Response', {
+        'distributed_code': 3, 'unknown': 0x31, 'username': 'evil-a', 'ticket': 2, 'query': 'evil query'})]
+    S['recommendations-unsolicited'] = [
+        ('GetRecommendations.Response', {'recommendations': [{'recommendation': '', 'score': -1}], 'unrecommendations': []}),
+        ('GetGlobalRecommendations.Response', {'recommendations': [], 'unrecommendations': []}),
+        ('GetItemRecommendations.Response', {'item': '', 'recommendations': []}),
+        ('GetUserInterests.Response', {'username': 'evil-a', 'interests': ['x', 'x'], 'hated_interests': ['x']}),
+        ('GetSimilarUsers.Response', {'users': [{'username': 'evil-a', 'score': 0}, {'username': 'evil-a', 'score': 1}]}),
+        ('GetItemSimilarUsers.Response', {'item': 'x', 'usernames': ['evil-a', 'evil-a']})]
+    S['unhandled-messages'] = [('Ping.Response', {}), ('SendConnectTicket.Response', {'username': 'evil-a', 'ticket': 1}),
+                               ('GetUserPrivileges.Response', {'username': 'evil-a', 'privileged': True}),
+                               ('IgnoreUser.Response', {'username': 'evil-a'}), ('GetInterests.Response', {'interests': []}),
+                               ('TunneledMessage.Response', {'username': 'evil-a', 'ticket': 1, 'code': 2, 'ip': '1.2.3.4',
+                                                             'port': 5, 'message': 'x'})]
+    S['AdminMessage-empty-and-TogglePrivateRoomInvites'] = [('AdminMessage.Response', {'message': ''}),
+                                                          ('TogglePrivateRoomInvites.Response', {'enabled': True})]
+
+    P: dict[str, list] = {}
+    P['PeerTransferReply-unknown-ticket'] = [('PeerTransferReply.Request', {'ticket': 666, 'allowed': False, 'reason': 'Cancelled'}),
+                                             ('PeerTransferReply.Request', {'ticket': 666, 'allowed': True, 'filesize': 0}),
+                                             ('PeerTransferReply.Request', {'ticket': 666, 'allowed': False})]
+    P['PeerPlaceInQueueReply-unknown-transfer'] = [('PeerPlaceInQueueReply.Request', {'filename': 'evil/x.mp3', 'place': 0xFFFFFFFF})]
+    P['PeerUploadFailed-unknown-transfer'] = [('PeerUploadFailed.Request', {'filename': 'evil/x.mp3'})] * 2
+    P['PeerTransferQueueFailed-unknown-transfer'] = [('PeerTransferQueueFailed.Request', {'filename': 'evil/x.mp3', 'reason': ''})]
+    P['PeerTransferRequest-bad-direction'] = [('PeerTransferRequest.Request', {'direction': 7, 'ticket': 1, 'filename': 'evil/x.mp3'})]
+    P['PeerTransferRequest-upload-of-unshared-file'] = [('PeerTransferRequest.Request', {'direction': 0, 'ticket': 2, 'filename': 'evil/x.mp3'})] * 2
+    P['PeerTransferRequest-download-nobody-asked-for'] = [('PeerTransferRequest.Request', {'direction': 1, 'ticket': 3, 'filename': 'evil/x.mp3',
+                                                                                         'filesize': 0xFFFFFFFFFFFFFFFF})]
+    P['PeerTransferQueue-unshared-file'] = [('PeerTransferQueue.Request', {'filename': 'evil/x.mp3'}), ('PeerTransferQueue.Request', {'filename': ''})]
+    P['PeerPlaceInQueueRequest-unknown-transfer'] = [('PeerPlaceInQueueRequest.Request', {'filename': 'evil/x.mp3'})]
+    P['PeerSharesRequest-repeated'] = [('PeerSharesRequest.Request', {}), ('PeerSharesRequest.Request', {'ticket': 5})]
+    P['PeerUserInfoRequest-repeated'] = [('PeerUserInfoRequest.Request', {})] * 3
+    P['PeerUserInfoReply-bad-permissions'] = [('PeerUserInfoReply.Request', {'description': 'evil', 'has_picture': False, 'upload_slots': 1,
+                                                                           'queue_size': 1, 'has_slots_free': True, 'upload_permissions': 99})]
+    P['PeerUserInfoReply-unsolicited'] = [('PeerUserInfoReply.Request', {'description': '', 'has_picture': True, 'picture': b'', 'upload_slots': 0,
+                                                                       'queue_size': 0, 'has_slots_free': False})]
+    P['PeerDirectoryContentsRequest-unknown-directory'] = [('PeerDirectoryContentsRequest.Request', {'ticket': 1, 'directory': 'evil\\nowhere'}),
+                                                           ('PeerDirectoryContentsRequest.Request', {'ticket': 1, 'directory': ''})]
+    P['PeerDirectoryContentsReply-unsolicited'] = [('PeerDirectoryContentsReply.Request', {'ticket': 99, 'directory': 'evil', 'directories': []})]
+    P['PeerSharesReply-unsolicited'] = [('PeerSharesReply.Request', {'directories': [{'name': 'evil', 'files': []}] * 2, 'unknown': 0,
+                                                                   'locked_directories': []})]
+    P['PeerUploadQueueNotification'] = [('PeerUploadQueueNotification.Request', {})]
+
+    D: dict[str, list] = {}
+    D['BranchLevel-zero-from-child'] = [('DistributedBranchLevel.Request', {'level': 0})]
+    D['BranchRoot-from-child'] = [('DistributedBranchRoot.Request', {'username': 'evil-root'})]
+    D['BranchLevel-and-Root-from-child-repeated'] = [('DistributedBranchLevel.Request', {'level': 3}), ('DistributedBranchRoot.Request', {'username': 'evil-root'}),
+                                                     ('DistributedBranchLevel.Request', {'level': 4}), ('DistributedBranchRoot.Request', {'username': 'evil-root2'})]
+    D['BranchLevel-max-then-Root'] = [('DistributedBranchLevel.Request', {'level': 0xFFFFFFFF}), ('DistributedBranchRoot.Request', {'username': 'evil-root'})]
+    D['BranchRoot-own-name'] = [('DistributedBranchLevel.Request', {'level': 1}), ('DistributedBranchRoot.Request', {'username': 'me'})]
+    D['ChildDepth-max'] = [('DistributedChildDepth.Request', {'depth': 0xFFFFFFFF})]
+    D['DistributedSearchRequest-from-child'] = [('DistributedSearchRequest.Request', {'unknown': 0, 'username': 'me', 'ticket': 0, 'query': ''})]
+    D['DistributedServerSearchRequest'] = [('DistributedServerSearchRequest.Request', {'distributed_code': 3, 'unknown': 0, 'username': 'evil-a', 'ticket': 1, 'query': 'x'}),
+                                           ('DistributedServerSearchRequest.Request', {'distributed_code': 77, 'unknown': 0, 'username': 'evil-a', 'ticket': 1, 'query': 'x'})]
+    D['DistributedInit-and-Ping'] = [('DistributedInit.Request', {'unknown1': 0, 'unknown2': 0, 'unknown3': 0, 'port': 0}),
+                                     ('DistributedPing.Request', {})] * 2
+    return {'server': S, 'peer': P, 'distributed': D}
+
+
+_MENU: Optional[dict] = None
+
+
+def menu() -> dict:
+    global _MENU
+    if _MENU is None:
+        _MENU = semantic_menu()
+    return _MENU
+
+
+def semantic_items(fam: str, labels: list[str], rng: random.Random) -> list[dict]:
+    """good, <entry frames>, good [, <entry frames>, good ...], good."""
+    fg = forge()
+    gid = rng.randrange(0, 60000)
+    items = []
+
+    def good():
+        nonlocal gid
+        gid = (gid + 1) % 65536
+        name, wire = fg.good(fam, gid, rng.randrange(8))
+        items.append({'g': gid, 'name': name, 'wire': wire})
+    good()
+    for lab in labels:
+        for name, values in menu()[fam][lab]:
+            wire = fg.encode(name, **values)
+            if fg.tainted(wire):
+                raise RuntimeError(f'menu entry {lab} carries a good id')
+            items.append({'b': lab, 'wire': wire, 'message': name})
+        good()
+    good()
+    return items
+
+
+def _run_semantic(res: dict, params: dict):
+    kind = params['conn']
+    rng = random.Random(f"{params.get('seed', 0)}:{ID}:semantic:{params.get('idx', 0)}:{params['entries']}")
+    items = semantic_items(FAMILY_OF[kind], params['entries'], rng)
+    seg, wmode = params.get('seg', 'whole'), params.get('wmode', 'per-frame')
+    info = _run_stream_world(res, f"{ID}:semantic:{kind}:{params.get('seed', 0)}:{params.get('idx', 0)}:{params['entries']}",
+                             kind, items, seg, wmode, 'semantic')
+    if info is None:
+        return
+    runner.add_obs(res, 'semantic_cases')
+    res['sample'] = {'kind': 'semantic', 'params': params, 'stream': [
+        ({'good': it['g'], 'message': it['name']} if 'g' in it else {'entry': it['b'], 'message': it['message']})
+        for it in items][:14], 'observed': info}
+
+
+# --------------------------------------------------------------------------------------------------
+# accept path: the FIRST frame of an incoming connection
+
+ACCEPT_BAD = ('random-body', 'unknown-code', 'truncated', 'zero-length', 'short-body', 'bad-text', 'count-lie-max',
+              'count-lie-plus1', 'wrong-family', 'known-code-random-payload')
+ACCEPT_STALL = ('stalled-garbage', 'stalled-partial')
+
+
+def _ref_undecodable_init(frame: bytes) -> bool:
+    fg = forge()
+    for spec in fg.specs['peerinit']:
+        try:
+            rc.decode_message(spec, frame, fg.lay)
+            return False
+        except Exception:  # noqa — RefError, UnicodeDecodeError: the reference rejects it
+            continue
+    return True
+
+
+def gen_accept(rng: random.Random) -> list[dict]:
+    fg = forge()
+    n = rng.randint(4, 10)
+    entries = []
+    t = 0.0
+    pierces = 0
+    for i in range(n):
+        if rng.random() < 0.55:
+            t += rng.choice((0.0, 0.0, 0.001, 0.01, 0.05))
+        roll = rng.random()
+        port = rng.choice(('clear', 'obf'))
+        if roll < 0.3:
+            e = {'what': 'good-init', 'port': port}
+        elif roll < 0.4 and pierces < 2:
+            pierces += 1
+            e = {'what': 'good-pierce', 'port': 'clear', 'peer': f'z{pierces}'}
+        elif roll < 0.88:
+            cls = rng.choice(ACCEPT_BAD)
+            for _ in range(50):
+                frame = fg.hostile(rng, 'peerinit', cls, 200)
+                if _ref_undecodable_init(frame):
+                    break
+            else:
+                raise RuntimeError(f'no undecodable init of class {cls}')
+            e = {'what': 'bad', 'cls': cls, 'port': port, 'hex': frame.hex()}
+        else:
+            cls = rng.choice(ACCEPT_STALL)
+            if cls == 'stalled-partial':
+                frame = fg.encode('PeerInit.Request', username='evil-stall', typ='P', ticket=1)
+                raw = frame[:rng.randint(4, len(frame) - 1)]
+                e = {'what': 'stall', 'cls': cls, 'port': port, 'hex': raw.hex(), 'obfuscate': True}
+            else:
+                while True:
+                    raw = rng.choice((b'GET / HTTP/1.1\r\nHost: x\r\n\r\n', b'SSH-2.0-evil\r\n', rng.randbytes(rng.randint(9, 40))))
+                    first = rc.obf_decode(raw[:8]) if port == 'obf' else raw[:4]
+                    if int.from_bytes(first[:4], 'little') > len(raw):
+                        break
+                e = {'what': 'stall', 'cls': cls, 'port': port, 'hex': raw.hex(), 'obfuscate': False}
+        e['t'] = round(t, 4)
+        entries.append(e)
+    if not any(e['what'].startswith('good') for e in entries):
+        entries[rng.randrange(n)] = {'what': 'good-init', 'port': rng.choice(('clear', 'obf')), 't': entries[-1]['t']}
+    if not any(e['what'] in ('bad', 'stall') for e in entries):
+        frame = fg.hostile(rng, 'peerinit', 'unknown-code', 100)
+        entries.insert(0, {'what': 'bad', 'cls': 'unknown-code', 'port': 'clear', 'hex': frame.hex(), 't': 0.0})
+    return entries
+
+
+def _run_accept(res: dict, params: dict):
+    from aioslsk.events import MessageReceivedEvent
+    from aioslsk.network.connection import ConnectionState, PeerConnectionState
+    from vf.monitors import safety_net_violations
+    from vf.simloop import settle
+    from vf.simnet import ConnPlan
+    from vf.world import World, run_world
+
+    fg = forge()
+    seed_s = f"{params.get('seed', 0)}:{ID}:accept:{params.get('idx', 0)}"
+    entries = params['entries'] if 'entries' in params else gen_accept(random.Random(seed_s))
+    rng = random.Random(seed_s + ':wire')
+    viol: list[tuple[str, dict]] = []
+    obs = {'accept_bad_judged': 0, 'accept_good_judged': 0, 'accept_stall_judged': 0, 'accept_connections': 0}
+    pub = [{k: (v if k != 'hex' else _hx(bytes.fromhex(v), 80)) for k, v in e.items()} for e in entries]
+
+    async def main(w: World):
+        refused_ports: set = set()
+
+        def planner(node, host, port, attempt):
+            if node == 'me' and port in refused_ports:
+                return ConnPlan(connect='refuse', latency=0.003)
+            r = random.Random(f'{seed_s}:plan:{attempt}')
+            return ConnPlan(latency=0.003, seg=r.choice(('whole', 'bytes1', 'random', 'random', 'fixed:3')), seg_lat=(0.0002, 0.0015))
+        w.net.planner = planner
+        await w.start_server()
+        h = await w.add_client('me')
+        h.record(MessageReceivedEvent)
+        net = h.client.network
+        peers = {'p1': await w.add_peer('p1'), 'p2': await w.add_peer('p2')}
+        for e in entries:
+            if e['what'] == 'good-pierce' and e['peer'] not in peers:
+                z = peers[e['peer']] = await w.add_peer(e['peer'])
+                refused_ports.update(x for x in (z.port, z.obf_port) if x)
+        await settle(1.0)
+        ip_me = w.net.ip_of('me')
+
+        def client_conn_of(link):
+            for c in net.peer_connections:
+                if c._writer is not None and c._writer.transport.conn is link.conn:
+                    return c
+            return None
+
+        gid = [rng.randrange(0, 50000)]
+
+        def next_good() -> tuple[int, bytes]:
+            gid[0] += 1
+            return gid[0], fg.good('peer', gid[0], rng.randrange(3))[1]
+
+        async def run_entry(i: int, e: dict):
+            if e['t']:
+                await asyncio.sleep(e['t'])
+            obf = e['port'] == 'obf'
+            port = h.obf_port if obf else h.port
+            peer = peers['p1' if i % 2 == 0 else 'p2']
+            if e['what'] == 'good-init':
+                link = await peer.dial(port, 'P', host=ip_me, obfuscated=obf)
+            elif e['what'] == 'good-pierce':
+                z = peers[e['peer']]
+                task = w.spawn('me', net.create_peer_connection(z.name, 'P'), name=f'c02-pierce-{i}')
+                done, _ = await asyncio.wait({task}, timeout=90.0)
+                if not done or task.exception() is not None:
+                    e['_failed'] = 'never-returned' if not done else repr(task.exception())
+                    if not done:
+                        task.cancel()
+                    return
+                conn = task.result()
+                link = next((l for l in z.links if conn._writer is not None and l.conn is conn._writer.transport.conn), None)
+                if link is None:
+                    e['_failed'] = 'no peer end'
+                    return
+            else:
+                wire = bytes.fromhex(e['hex'])
+                if obf and e.get('obfuscate', True):
+                    wire = rc.obf_encode(wire, c01gen.gen_key(rng))
+                link = await peer.dial(port, 'P', host=ip_me, obfuscated=obf, init=wire)
+            e['_link'] = link
+            if e['what'].startswith('good'):
+                n, wire = next_good()
+                e['_ids'] = [n]
+                link.send_raw(rc.obf_encode(wire, c01gen.gen_key(rng)) if link.obfuscated else wire)
+
+        tasks = [w.loop.create_task(run_entry(i, e)) for i, e in enumerate(entries)]
+        await asyncio.gather(*tasks)
+        await settle(1.0)
+        obs['accept_connections'] += len(entries)
+
+        def endpoint_closed(link) -> bool:
+            tr = link.writer.transport.peer           # the client's end
+            return tr._closing or tr._lost
+
+        # -- good connections: initialised, working, still working after the bad ones were handled ----------
+        goods = [e for e in entries if e['what'].startswith('good')]
+        for e in goods:
+            link = e.get('_link')
+            obs['accept_good_judged'] += 1
+            if link is None:
+                viol.append((f"accept:good-connection-affected:{e['what']}:not-established",
+                             {'entries': pub, 'entry': {k: v for k, v in e.items() if not k.startswith('_')}, 'error': e.get('_failed')}))
+                continue
+            conn = client_conn_of(link)
+            e['_conn'] = conn
+            if conn is None or conn.state != ConnectionState.CONNECTED or conn.connection_state != PeerConnectionState.ESTABLISHED \
+                    or endpoint_closed(link) or conn._reader_task is None or conn._reader_task.done():
+                viol.append((f"accept:good-connection-affected:{e['what']}:not-initialised-or-closed",
+                             {'entries': pub, 'entry': {k: v for k, v in e.items() if not k.startswith('_')},
+                              'client_connection': repr(conn), 'endpoint_closed': endpoint_closed(link)}))
+                e['_conn'] = None
+                continue
+            n, wire = next_good()
+            e['_ids'].append(n)
+            link.send_raw(rc.obf_encode(wire, c01gen.gen_key(rng)) if link.obfuscated else wire)
+        await settle(0.5)
+        for e in goods:
+            conn = e.get('_conn')
+            if conn is None:
+                continue
+            got = [good_id(ev.message) for _, ev in h.events if ev.connection is conn]
+            got = [g for g in got if g is not None]
+            if got != e['_ids']:
+                viol.append((f"accept:good-connection-affected:{e['what']}:frames-{'lost' if len(got) < len(e['_ids']) else 'wrong'}",
+                             {'entries': pub, 'entry': {k: v for k, v in e.items() if not k.startswith('_')},
+                              'written_ids': e['_ids'], 'delivered_ids': got}))
+
+        # -- bad first frames: that connection is closed ---------------------------------------------------------
+        for e in entries:
+            if e['what'] == 'bad':
+                obs['accept_bad_judged'] += 1
+                if not endpoint_closed(e['_link']):
+                    conn = client_conn_of(e['_link'])
+                    viol.append((f"accept:bad-first-frame-not-closed:{e['cls']}",
+                                 {'entries': pub, 'entry': {k: v for k, v in e.items() if not k.startswith('_')},
+                                  'client_connection': repr(conn),
+                                  'reader_task': None if conn is None or conn._reader_task is None else repr(conn._reader_task)[:200]}))
+        if len(w.net.listeners_of('me')) != 2:
+            viol.append(('accept:listener-down', {'entries': pub, 'listening_ports': [l.port for l in w.net.listeners_of('me')]}))
+        stalls = [e for e in entries if e['what'] == 'stall']
+        if stalls:
+            await settle(70.0)
+            for e in stalls:
+                obs['accept_stall_judged'] += 1
+                if not endpoint_closed(e['_link']):
+                    viol.append((f"accept:stalled-first-frame-not-closed:{e['cls']}",
+                                 {'entries': pub, 'entry': {k: v for k, v in e.items() if not k.startswith('_')},
+                                  'virtual_seconds_waited': 70}))
+        # -- both listeners still accept ---------------------------------------------------------------------------
+        n0 = len(h.events)
+        fresh = []
+        for obf in (False, True):
+            try:
+                link = await peers['p1'].dial(h.obf_port if obf else h.port, 'P', host=ip_me, obfuscated=obf)
+            except (ConnectionError, OSError) as exc:
+                viol.append(('accept:listener-down', {'entries': pub, 'port': 'obf' if obf else 'clear', 'error': repr(exc)}))
+                continue
+            n, wire = next_good()
+            link.send_raw(rc.obf_encode(wire, c01gen.gen_key(rng)) if obf else wire)
+            fresh.append((obf, n))
+        await settle(0.5)
+        got = [good_id(ev.message) for _, ev in h.events[n0:]]
+        for obf, n in fresh:
+            if got.count(n) != 1:
+                viol.append(('accept:listener-down', {'entries': pub, 'port': 'obf' if obf else 'clear',
+                                                      'what': 'a fresh well-formed connection did not deliver its frame'}))
+        await w.stop_clients()
+        return True
+
+    out = run_world(seed_s, main, wall_timeout=90)
+    if out.inconclusive:
+        res['inconclusive'] = out.inconclusive
+        return
+    for sig, detail in viol:
+        runner.violation(res, sig, **detail)
+    for sig, detail in safety_net_violations(out, allow_msgs=HANDLER_ERROR_MSGS):
+        runner.violation(res, 'safety:' + _BRACKET.sub('', sig), **detail)
+    runner.add_obs(res, 'accept_cases')
+    for k, v in obs.items():
+        runner.add_obs(res, k, v)
+    for e in entries:
+        runner.add_cover(res, 'accept_entries', f"{e['what']}:{e.get('cls', '-')}:{e['port']}")
+    same_instant = sum(1 for a, b in zip(entries, entries[1:]) if a['t'] == b['t'])
+    res['csigs'].append('accept|' + '>'.join(f"{e['what']}:{e.get('cls', '-')}:{e['port']}" for e in entries) + f'|{same_instant}')
+    res['sample'] = {'kind': 'accept', 'params': {k: v for k, v in params.items() if k != 'entries'}, 'entries': pub}
+
+
+# --------------------------------------------------------------------------------------------------
+
+def cases(tier: str, seed: int) -> list[dict]:
+    sz = SIZES[tier]
+    out: list[dict] = []
+    # every menu entry alone (minimal witnesses get the lowest case numbers)
+    for fam, kinds in (('server', ('server',)), ('peer', ('peer', 'peer-obf')), ('distributed', ('dist', 'dist-obf'))):
+        for i, lab in enumerate(menu()[fam]):
+            for kind in kinds:
+                out.append({'kind': 'semantic', 'mode': 'sys', 'conn': kind, 'entries': [lab], 'seg': 'whole', 'wmode': 'per-frame'})
+    for i in range(sz['accept']):
+        out.append({'kind': 'accept', 'seed': seed, 'idx': i})
+    rng = random.Random(f'{seed}:{ID}:cases')
+    for i in range(sz['sem_random']):
+        kind = ('server', 'server', 'peer', 'server', 'dist', 'peer-obf')[i % 6]
+        labs = list(menu()[FAMILY_OF[kind]])
+        entries = [rng.choice(labs) for _ in range(rng.randint(2, 5))]
+        out.append({'kind': 'semantic', 'mode': 'rand', 'seed': seed, 'idx': i, 'conn': kind, 'entries': entries,
+                    'seg': rng.choice(SEGS), 'wmode': rng.choice(WMODES)})
+    # interleave parser batches and streams so that every shard gets both
+    ns, nb = sz['streams'], sz['parser_batches']
+    step = max(1, ns // max(1, nb))
+    b = 0
+    for i in range(ns):
+        out.append({'kind': 'stream', 'seed': seed, 'idx': i})
+        if i % step == 0 and b < nb:
+            out.append({'kind': 'parser', 'seed': seed, 'idx': b, 'n': sz['batch']})
+            b += 1
+    while b < nb:
+        out.append({'kind': 'parser', 'seed': seed, 'idx': b, 'n': sz['batch']})
+        b += 1
+    return out
+
+
+def run_case(params: dict) -> dict:
+    res = runner.new_result(params.get('case', 0))
+    kind = params['kind']
+    if kind == 'parser':
+        _run_parser(res, params)
+    elif kind == 'stream':
+        _run_stream(res, params)
+    elif kind == 'semantic':
+        _run_semantic(res, params)
+    elif kind == 'accept':
+        _run_accept(res, params)
+    else:
+        res['inconclusive'] = f'unknown case kind {kind!r}'
+    return res
+
+
+def finish(total: dict, tier: str, seed: int) -> None:
+    cov = total['cover']
+    total['obs']['conn_kinds_covered'] = len(cov.get('conn_kinds', []))
+    total['obs']['stream_classes_covered'] = len(cov.get('stream_classes', []))
+    total['obs']['semantic_entries_covered'] = len(cov.get('semantic_classes', []))
